@@ -3,6 +3,7 @@ package sim
 import (
 	"bytes"
 	"fmt"
+	"strings"
 	"testing"
 
 	"github.com/wkhere/bcl"
@@ -24,11 +25,64 @@ func (c06) Rule() string {
 		"non-trivial iff the source is non-empty and the fault fired or the limit program reached the VM; distinct = distinct source hashes"
 }
 
+// Unmarshal targets whose field names match what the generators write, so that Bind's field
+// walk is reached from source text alone. The struct types are anonymous (no type-name check);
+// scalar fields take any value; nested blocks meet nested structs two levels deep and a named
+// type below that (a clean mismatch error).
+type c06Leaf struct{ Name string }
+type c06Inner = struct {
+	Name                                                                   string
+	F, Ff, G, Opt, Level, Remote, Field, Enabled, LocalPort, MaxLatency, H1 any
+	Extras, Tunnel, Server, T1, Blk, Point, Db, AB, T                      c06Leaf
+}
+type c06Target = struct {
+	Name                                                                   string
+	F, Ff, G, Opt, Level, Remote, Field, Enabled, LocalPort, MaxLatency, H1 any
+	Extras, Tunnel, Server, T1, Blk, Point, Db, AB, T                      c06Inner
+}
+
+// bindValues writes a small program whose bound block holds values of every kind,
+// nil included, and nested blocks.
+func bindValues(r *prng.R) []byte {
+	var sb strings.Builder
+	vals := []string{"nil", "1", "2.5", `"s"`, "true", "false", "nil", "1 == 2", `"a" + 1`, "0"}
+	fields := []string{"f", "ff", "g", "opt", "level", "remote", "field", "enabled", "local_port", "max_latency", "h_1"}
+	bt := prng.Pick(r, []string{"t", "tunnel", "server", "blk"})
+	n := r.Range(1, 3)
+	if r.Chance(1, 3) {
+		sb.WriteString("var u\n")
+	}
+	for b := 0; b < n; b++ {
+		fmt.Fprintf(&sb, "def %s %s{\n", bt, prng.Pick(r, []string{"", `"n" `, `"x.y" `}))
+		for k := r.Range(1, 4); k > 0; k-- {
+			fmt.Fprintf(&sb, " %s = %s\n", prng.Pick(r, fields), prng.Pick(r, vals))
+		}
+		if r.Chance(1, 3) {
+			fmt.Fprintf(&sb, " def %s %s{ f = %s }\n", prng.Pick(r, []string{"extras", "point", "db", "t1"}), prng.Pick(r, []string{"", `"i" `}), prng.Pick(r, vals))
+		}
+		sb.WriteString("}\n")
+	}
+	sel := prng.Pick(r, []string{"", ":first", ":last", ":all", ":1"})
+	tgt := prng.Pick(r, []string{"struct", "slice"})
+	if sel == ":all" {
+		tgt = "slice"
+	}
+	fmt.Fprintf(&sb, "bind %s%s -> %s\n", bt, sel, tgt)
+	return []byte(sb.String())
+}
+
 func (c06) Gen(seed uint64, idx int, tier string) *Scenario {
 	r := prng.New(seed, "C06", idx)
 	sc := &Scenario{Prop: "C06", Seed: seed, Idx: idx, Name: "f.bcl"}
 	big := tier == "thorough" && r.Chance(1, 20) || r.Chance(1, 400)
-	switch r.Weighted(10, 6, 5, 2, 2) {
+	switch r.Weighted(10, 6, 5, 2, 2, 3) {
+	case 5:
+		sc.Src = bindValues(r)
+		sc.Class = "bind-values"
+		if r.Chance(1, 3) {
+			sc.Src, _ = gen.Damage(r, &gen.Prog{Src: sc.Src})
+			sc.Class = "bind-values-damaged"
+		}
 	case 0:
 		cfg := gen.DefaultCfg(r)
 		p := gen.Generate(r, cfg)
@@ -126,6 +180,14 @@ func (c06) Run(t *testing.T, sc *Scenario) *Outcome {
 	call("Unmarshal", func() error {
 		var o2, l2 bytes.Buffer
 		return bcl.Unmarshal(sc.Src, &UTarget{}, bcl.OptOutput(&o2), bcl.OptLogger(&l2))
+	})
+	call("Unmarshal(struct target)", func() error {
+		var o2, l2 bytes.Buffer
+		return bcl.Unmarshal(sc.Src, &c06Target{}, bcl.OptOutput(&o2), bcl.OptLogger(&l2))
+	})
+	call("Unmarshal(slice target)", func() error {
+		var o2, l2 bytes.Buffer
+		return bcl.Unmarshal(sc.Src, &[]c06Target{}, bcl.OptOutput(&o2), bcl.OptLogger(&l2))
 	})
 	if reached {
 		o.probe("reached_vm", 1)
